@@ -264,3 +264,55 @@ ABSTRACT_SUMMARIES = {
 
 def eval_atom(objkey, fitted_on, *cols):
     return app("eval", objkey, fitted_on, app("colstack", tuple(lift(c) for c in cols)))
+
+
+# ------------------------------------------------------------------ detectors
+
+
+def frame_sym(ex, name="X", shape=None):
+    shape = shape if shape is not None else (N, Pdim)
+    v = Num(sym(name), shape, "float", "frame", meta={"foreign": True, "role": name})
+    ex.atom_shapes[Atom("sym", name).key] = shape
+    return v
+
+
+def init_params(cls_init: FuncInfo):
+    a = cls_init.node.args
+    params = [x.arg for x in a.args][1:]
+    defaults = [None] * (len(params) - len(a.defaults)) + list(a.defaults)
+    return list(zip(params, defaults))
+
+
+def symbolic_hyperparams(ex, P, cls: ClassInfo, overrides=None):
+    """Keyword arguments for cls(...) with every numeric hyper-parameter symbolic."""
+    overrides = overrides or {}
+    init = P.lookup_method(cls, "__init__")
+    kw = {}
+    for name, d in init_params(init):
+        if name in overrides:
+            v = overrides[name]
+            if v is not None:
+                kw[name] = v(ex) if callable(v) else v
+            continue
+        if d is None:
+            continue  # required argument without override
+        if isinstance(d, ast.Constant):
+            c = d.value
+            if c is None:
+                kw[name] = NONE
+            elif isinstance(c, bool):
+                kw[name] = Num(None, (), "bool", cond=Cond.const(c))
+            elif isinstance(c, int):
+                kw[name] = Num(sym(name), (), "int", meta={"hyper": name})
+            elif isinstance(c, float):
+                kw[name] = Num(sym(name), (), "float", meta={"hyper": name})
+            elif isinstance(c, str):
+                kw[name] = StrV(c)
+        else:
+            # non-constant default (e.g. np.mean): let the default apply
+            continue
+    return kw
+
+
+def ok_paths(paths):
+    return [p for p in paths if p.outcome == "return"]
